@@ -7,6 +7,7 @@ package main
 //     types x HTTP methods x sealed/unsealed with a real key.
 
 import (
+	"net/url"
 	"encoding/json"
 	"fmt"
 	"net/http"
@@ -354,6 +355,43 @@ func init() {
 						}
 					}
 					lw.Close()
+				}
+			}
+			// ---- a second factor proven by ANOTHER user must not end in a certificate:
+			// bob proves his TOTP while his request also carries alice's password-only
+			// cookie (both orders); whatever cookie comes back is tried on /certgen/alice
+			if c.Shard == c.NShards-1 {
+				for _, cfg := range [][]string{{"TOTP"}, {"TOTP", "U2F"}, {"SymantecVIP", "TOTP"}} {
+					for _, order := range []string{"victim-first", "victim-last"} {
+						sw := vfNewWorld(vfOpts{CertBackends: cfg, WebUIBackends: []string{"password"}, EnableTOTP: true})
+						sw.vfGiveTOTP("bob", 1)
+						va, vb := sw.vfCookie("alice", AuthTypePassword), sw.vfCookie("bob", AuthTypePassword)
+						cks := []*http.Cookie{va, vb}
+						if order == "victim-last" {
+							cks = []*http.Cookie{vb, va}
+						}
+						r := sw.Do(vfReq{Method: "POST", Path: totpAuthPath, Cookies: cks, Form: url.Values{"OTP": {vfTOTPCode("bob", vclock.Now())}}}.Build())
+						c.Eval(1)
+						p := c01Point{Part: "foreign-second-factor", Cfg: cfg, Shape: order}
+						issued := false
+						for _, got := range r.Cookies {
+							if got.Name != authCookieName || got.Value == "" {
+								continue
+							}
+							q := vfCertgenReq("alice", "ssh", vfSSHPub(vfKeys.userRSA.Public()), "1h")
+							q.Cookies = []*http.Cookie{{Name: authCookieName, Value: got.Value}}
+							cr := sw.Do(q.Build())
+							if cr.Code/100 == 2 || c01HasSigned(cr.Body) {
+								issued = true
+							}
+						}
+						sw.Close()
+						if issued {
+							c.Violate("C01|issued-after-foreign-second-factor|certGenHandler|"+order, fmt.Sprintf("cfg=%v: bob proved his TOTP on a request that also carried alice's password-only cookie (%s); the cookie returned obtained a certificate for alice", cfg, order), p)
+						} else {
+							c.Class("foreign-second-factor|"+order+"|no certificate", p)
+						}
+					}
 				}
 			}
 			// ---- end-to-end product
